@@ -2,6 +2,10 @@
 
 package writecache
 
+import (
+	oid "github.com/nspcc-dev/neofs-sdk-go/object/id"
+)
+
 // VerifSize returns the size the cache accounts as used and the number of
 // accounted objects (verification harness only).
 func VerifSize(c Cache) (uint64, int) {
@@ -15,4 +19,17 @@ func VerifQuiesce(c Cache) {
 	cc := c.(*cache)
 	cc.modeMtx.Lock()
 	cc.modeMtx.Unlock() //nolint:staticcheck // empty critical section on purpose
+}
+
+// VerifFiles calls h for every object the cache's own file tree holds,
+// whatever the mode is (Iterate only works in read-only mode).
+func VerifFiles(c Cache, h func(oid.Address, []byte) error) error {
+	cc := c.(*cache)
+	return cc.fsTree.IterateAddresses(func(addr oid.Address) error {
+		data, err := cc.fsTree.GetBytes(addr)
+		if err != nil {
+			return nil
+		}
+		return h(addr, data)
+	}, true)
 }
